@@ -774,20 +774,28 @@ static char *detect_include_guard(Token *tok) {
   if (!is_hash(tok) || !equal(tok->next, "define") || !equal(tok->next->next, macro))
     return NULL;
 
-  // Read until the end of the file.
+  // Read until the #endif that matches the #ifndef. The file is
+  // guarded only if that #endif ends the file and the #ifndef has
+  // no #elif or #else group.
   while (tok->kind != TK_EOF) {
     if (!is_hash(tok)) {
       tok = tok->next;
       continue;
     }
 
-    if (equal(tok->next, "endif") && tok->next->next->kind == TK_EOF)
-      return macro;
+    if (equal(tok->next, "if") || equal(tok->next, "ifdef") ||
+        equal(tok->next, "ifndef")) {
+      tok = skip_cond_incl2(tok->next->next);
+      continue;
+    }
 
-    if (equal(tok, "if") || equal(tok, "ifdef") || equal(tok, "ifndef"))
-      tok = skip_cond_incl(tok->next);
-    else
-      tok = tok->next;
+    if (equal(tok->next, "elif") || equal(tok->next, "else"))
+      return NULL;
+
+    if (equal(tok->next, "endif"))
+      return tok->next->next->kind == TK_EOF ? macro : NULL;
+
+    tok = tok->next;
   }
   return NULL;
 }
